@@ -55,7 +55,8 @@ int main(int argc, char** argv)
 		for (int pre = 0; pre < 1100; pre += 1) { Var v = Var::ARRAY; String s2; for (int i = 0; i < pre; i++) s2 << 'x'; v << s2 << (-2147483647 - 1) << 2147483647 << 0.1 << 1e300 << -1.5e-30f << -1.2345678901234567e-300 << -2.2250738585072014e-308 << -1.7976931348623157e+308;
 			Var back = Json::decode(Json::encode(v)); if (!back.ok() || back.length() != v.length() || !(back[1] == v[1]) || !(back[2] == v[2])) { printf("REPRODUCED number round trip with a %d-character prefix\n", pre); return 1; } }
 		// prefix rejection and chunk independence on documents with nesting, strings with brackets and escapes, comments
-		{ const char* docs[] = { "[1,[2,{\"a]\":\"}\\\"]\"}],\"x\"]", "{\"k\":[true,null,{\"q\":-1.5e3}],\"s\":\"\\u00e9\\n/\"}", "\"a string ] with } brackets\"", "[[[[[]]]],{},\"\"]", "{\"a/b\":[1,2] /*c*/ ,\"c\":\"//\"}" };
+		{ const char* docs[] = { "[1,[2,{\"a]\":\"}\\\"]\"}],\"x\"]", "{\"k\":[true,null,{\"q\":-1.5e3}],\"s\":\"\\u00e9\\n/\"}", "\"a string ] with } brackets\"", "[[[[[]]]],{},\"\"]", "{\"a/b\":[1,2] /*c*/ ,\"c\":\"//\"}",
+			"[1 \n2]", "[1\r\n2\r\n]", "{x=1 \n y=\"s\"}", "[ 1 , 2 \t\n 3 ]", "[ true \n false ]" };   // XDL: a newline separates items, also after blanks
 		  for (unsigned d = 0; d < sizeof(docs) / sizeof(docs[0]); d++) { std::string doc = docs[d]; Var whole = Json::decode(doc.c_str());
 			if (!whole.ok()) { printf("REPRODUCED valid document %u rejected\n", d); return 1; }
 			for (size_t cut = 0; cut < doc.size(); cut++) { Var v = Json::decode(doc.substr(0, cut).c_str()); if (v.ok()) { printf("REPRODUCED prefix of %d characters of document %u accepted\n", (int)cut, d); return 1; }
